@@ -120,7 +120,7 @@ def c14_cases(tier, rng):
         for s in strs:
             ascii_only = all(b < 0x80 for b in s)
             c = E2E(cfg)
-            c.mail(b"s@x.org", dict(envid=s if ascii_only else b"e", auth=rng.choice([None, b"u@d", b"", b"a+b=c@d.org", b"x{y}@d"]),
+            c.mail(rng.choice([b"s@x.org", b"s@x.org", b"s@x.org", b""]), dict(envid=s if ascii_only else b"e", auth=rng.choice([None, b"u@d", b"", b"a+b=c@d.org", b"x{y}@d"]),
                                     size=rng.randrange(0, 99999), ret=rng.choice([b"FULL", b"HDRS", b""]),
                                     utf8=utf8 and rng.random() < 0.5, body=rng.choice([b"", b"7BIT", b"8BITMIME", b"BINARYMIME"])))
             typ = rng.choice([b"RFC822", b"UTF-8"]) if ascii_only else b"UTF-8"
@@ -135,7 +135,9 @@ def c14_cases(tier, rng):
     for k in range(len(fields_m) + 1):
         for sub in itertools.combinations(fields_m, k):
             c = E2E()
-            c.mail("sénder@x.org".encode() if ("utf8", 1) in sub else b"s@x.org", dict(sub))
+            # the sender: an ordinary mailbox, a non-ASCII one with SMTPUTF8, or the null sender (bounces carry options too)
+            sender = "sénder@x.org".encode() if ("utf8", 1) in sub else rng.choice([b"s@x.org", b"s@x.org", b"", b"first.last+tag@sub.x.org"])
+            c.mail(sender, dict(sub))
             ro = dict(rng.sample(fields_r, rng.randrange(0, 4)))
             if "orcpt" in ro:
                 ro["orcpttype"] = b"RFC822"
